@@ -28,10 +28,47 @@ repairs()[0] is an arbitrary member of the set) the value must agree with the u3
 GUARDS_FIXED selects which guards the mirror evaluates: False = the guards of the
 unchanged tree (grammar.rs:150-165), True = the proposed ones.  The coordinator
 flips it when the fix is applied to /repo.
+
+SIZE_ASSERT_FIXED (True since /repo 394c6e3): the three state-count guards — pager.rs `>= MAX` while adding / `> MAX`
+after gc, StateGraph::new `>= MAX`, StateTable::new `>= MAX-1` — must ALL refuse with the documented
+"StorageT is not big enough to store this stategraph." panic.  A bare `assertion failed: …` during construction (what
+StateGraph::new / StateTable::new raised for exactly MAX / MAX-1 states before the fix) is then NOT a clean refusal:
+the harness prints OTHERPANIC, this check reports VIOLATION with the grammar.  False = the tree before 394c6e3: the
+two size asserts count as refusals of their own classes (SGASSERT / STASSERT).  The mirror (Coq: only `Refuse <guard>`)
+names the guard that fires; GUARD_MESSAGE maps the guard to the message class the implementation must show
+(C20_state_count_refused_iff: refused iff states >= MAX-1, message class uniform).
 """
+import os
+
 from vlib import core
 
 GUARDS_FIXED = True
+SIZE_ASSERT_FIXED = True
+if core.SCRATCH and os.environ.get("GV_C20_SIZE_ASSERT_FIXED") in ("0", "1"):    # mutation-testing aid only (never under ./check on /repo)
+    SIZE_ASSERT_FIXED = os.environ["GV_C20_SIZE_ASSERT_FIXED"] == "1"
+
+DOC_STATE_MSG = "StorageT is not big enough to store this stategraph."
+SIZE_ASSERTS = {"assertion failed: states.len() <": "SGASSERT",                       # StateGraph::new before 394c6e3
+                "assertion failed: sg.all_states_len().as_storaget() <": "STASSERT"}  # StateTable::new before 394c6e3
+
+
+def size_assert_class(msg):
+    for pre, cls in SIZE_ASSERTS.items():
+        if msg.startswith(pre):
+            return cls
+    return None
+
+
+def guard_message(guard):
+    """guard named by the mirror (ocaml/c20: RULES TOKENS PRODS SYMBOLS PAGER GC SGNEW STNEW LEXRULE) -> the message class
+    (refusal_class) the implementation must refuse with"""
+    if guard in ("PAGER", "GC"):
+        return "STATEGRAPH"
+    if guard in ("SGNEW", "STNEW"):
+        if SIZE_ASSERT_FIXED:
+            return "STATEGRAPH"
+        return {"SGNEW": "SGASSERT", "STNEW": "STASSERT"}[guard]
+    return guard
 
 # known defect of the unchanged tree, one key per boundary class (= the proposed guard
 # that would refuse the configuration; the class is computed by the proved model)
@@ -187,6 +224,11 @@ def parse_impl(line):
         else:
             r["G"] = r["G"] or "OTHER"
             r["gmsg"] = p
+    if not SIZE_ASSERT_FIXED:
+        # the tree before 394c6e3: the size asserts of StateGraph::new / StateTable::new were its way of refusing
+        for st, mk in (("G", "gmsg"), ("T", "tmsg")):
+            if r[st] == "OTHERPANIC" and size_assert_class(r[mk]):
+                r[st] = "REFUSED"
     return r
 
 
@@ -199,12 +241,10 @@ def refusal_class(msg):
         return "TOKENS"
     if "grammar's productions" in msg:
         return "PRODS"
-    if "this stategraph" in msg:
-        return "PAGER"       # pager.rs:259 and :300 print the same text
-    if msg.startswith("assertion failed: states.len()"):
-        return "SGASSERT"
-    if msg.startswith("assertion failed: sg.all_states_len()"):
-        return "STASSERT"
+    if "this stategraph" in msg and "not big enough" in msg:
+        return "STATEGRAPH"  # pager.rs:259 / :300, stategraph.rs:26, statetable.rs:208 all print DOC_STATE_MSG
+    if size_assert_class(msg):
+        return size_assert_class(msg)
     if "exceeds the type's maximum value" in msg:
         return "LEXRULE"
     return "?"
@@ -574,6 +614,124 @@ def merge_family(ctx, exe_r, exe_d=None):
     return len(gs)
 
 
+def long_prod_src(n):
+    """`S: 't0' … 't{k-1}';` with k = n - 2 symbols: exactly n LR states (the audit's shape)"""
+    return "%start S\n%%\nS:" + "".join(" 't%d'" % (i % 7) for i in range(n - 2)) + ";\n"
+
+
+def long_prod_inputs(n):
+    good = ["t%d" % (i % 7) for i in range(n - 2)]
+    return [" ".join(good), " ".join(good[:-1]), " ".join(good + ["t0"]), "t0 t1 t1"]
+
+
+def rule_chain_shape(n):
+    """-> (link, m, t): m rules, `link` tokens 'a' per link, tail of t tokens 'b'.  The goto table is states x rules cells of
+    usize, so the 16-bit sizes use long links (about 1000 rules) instead of 32 k rules"""
+    link = 1 if n < 1000 else 63
+    links = (n - 3) // (link + 1)
+    t = n - 2 - (link + 1) * links
+    return link, links + 1, t
+
+
+def rule_chain_src(n):
+    """`R0: 'a'{L} R1 | ; … R{m-2}: 'a'{L} R{m-1} | ; R{m-1}: 'b'{t};` has 2 + (L+1)(m-1) + t states (start, accept, L+1 per
+    link, t for the tail; 1 <= t <= L+1 picks the remainder): exactly n states.  L = 1 for the 8-bit sizes: the audit's
+    second shape (127 rules, 255 states)"""
+    link, m, t = rule_chain_shape(n)
+    a = " ".join(["'a'"] * link)
+    out = ["%start R0", "%%"]
+    out += ["R%d: %s R%d | ;" % (i, a, i + 1) for i in range(m - 1)]
+    out.append("R%d: %s;" % (m - 1, " ".join(["'b'"] * t)))
+    return "\n".join(out) + "\n"
+
+
+def rule_chain_inputs(n):
+    link, m, t = rule_chain_shape(n)
+    full = ["a"] * (link * (m - 1))
+    return [" ".join(["a"] * (3 * link)), " ".join(full + ["b"] * t), " ".join(full + ["b"] * (t + 1)), " ".join(["a"] * link + ["b"]),
+            "b", "a a"]
+
+
+def state_boundary_family(ctx, exe_r, exe_d, mexe):
+    """State counts exactly at the refusal boundary, two shapes, expectation stated WITHOUT the transcript of a neighbouring
+    guard: a width w accepts n states iff n <= MAX-2 (MAX = 2^w - 1; C20_state_count_refused_iff, cross-checked against the
+    extracted state_guards), then with the u32 build's table and parse results; otherwise it is refused and the panic text
+    is exactly DOC_STATE_MSG (or, far beyond the width, a documented grammar-size refusal).  u8: 253, 254, 255, 256 states
+    (quick); u16: 65533 … 65536 (thorough, rule chain; the long production at these sizes is a gen_cases(16) configuration)."""
+    shapes = (("long-production", long_prod_src, long_prod_inputs), ("rule-chain", rule_chain_src, rule_chain_inputs))
+    # (16-bit sizes: the rule chain only — the long production at 65531 … 65537 states is the `states` configuration of
+    #  gen_cases(16), built there in all widths and both profiles)
+    items = [(name, n, mk(n), ins(n)) for name, mk, ins in shapes
+             for n in [253, 254, 255, 256] + ([65533, 65534, 65535, 65536] if (not ctx.quick and name == "rule-chain") else [])]
+    lines = ["N %d %s ; %s" % (w, hx(src), " ; ".join(x for x in inputs if x)) for _, _, src, inputs in items for w in WIDTHS]
+    env = dict(REC_ENV, GVH_CASE_TIMEOUT_MS="900000")
+    out_r = core.run_lines([exe_r], lines, timeout=3000, env=env)
+    # debug profile: every width for the 8-bit sizes, the boundary width only for the 16-bit sizes (a 65 k-state build takes minutes)
+    dkeys = [(k, j) for k, it in enumerate(items) for j in range(3) if it[1] < 1000 or j == 1]
+    out_d = dict(zip(dkeys, core.run_lines([exe_d], [lines[3 * k + j] for k, j in dkeys], timeout=3000, env=env)))
+    model = core.run_lines([mexe], ["1 %d O 1 1 - %d %d 0 ; 1:0:1" % (w, n, n) for _, n, _, _ in items for w in WIDTHS], timeout=3000)
+    nbad = 0
+    for k, (name, n, src, inputs) in enumerate(items):
+        ref_line = out_r[3 * k + 2]
+        ref = parse_impl(ref_line)
+        # diffs: property level (a failing input); corr: the guards are no longer the mirror's (state_guards_exact), the
+        # property still holds on this grammar (a clean documented refusal of something that fits / an accepted build
+        # beyond MAX-2 that equals the u32 build)
+        diffs, corr = [], []
+        if not (ref["T"] == "OK" and ref["t"].get("ns") == str(n) and ref["t"].get("sr") == "0" and ref["t"].get("rr") == "0"):
+            diffs.append("u32 release: expected a conflict-free table of %d states, got: %s" % (n, ref_line[:200]))
+        for j, w in enumerate(WIDTHS):
+            accept = n + 3 <= (1 << w)                                   # n <= MAX - 2
+            m = parse_kv(model[3 * k + j])
+            if (m.get("s") == "PASS") != accept:
+                corr.append("u%d: extracted state_guards says %s for %d states, C20_state_count_refused_iff says %s"
+                            % (w, m.get("s"), n, "accept" if accept else "refuse"))
+            for prof, line in (("release", out_r[3 * k + j]), ("debug", out_d.get((k, j)))):
+                if line is None:
+                    continue
+                r = parse_impl(line)
+                what = "%s u%d (%d states, MAX = %d)" % (prof, w, n, (1 << w) - 1)
+                stage, msg = ("G", r["gmsg"]) if r["G"] != "OK" else ("T", r["tmsg"])
+                if r["G"] == "OK" and r["T"] == "OK":
+                    if comparable(r) != comparable(ref):
+                        diffs.append("%s: accepted, but grammar / table / parse transcript differs from the u32 build: %s" % (what, line[:240]))
+                    elif not (r.get("IT") or "").startswith("ok"):
+                        diffs.append("%s: per-state iterators: %s" % (what, r.get("IT")))
+                    elif not accept:
+                        corr.append("%s: accepted (and equal to the u32 build) although the mirror's guards refuse from MAX-1 states on" % what)
+                elif r[stage] != "REFUSED":
+                    diffs.append("%s: %s; got: %s %s %s" % (
+                        what, ("cannot hold the state graph (states >= MAX-1) and must be refused with the documented '%s'" % DOC_STATE_MSG)
+                        if not accept else "fits (states <= MAX-2) and must be built like u32 (or be refused with the documented panic)",
+                        stage, r[stage], msg[:200]))
+                elif stage == "T" and msg.strip() != DOC_STATE_MSG and not size_assert_class(msg):
+                    diffs.append("%s: refused, but not with the documented text '%s': %s" % (what, DOC_STATE_MSG, msg[:200]))
+                elif accept:
+                    corr.append("%s: fits (states <= MAX-2) but was refused: %s" % (what, line[:240]))
+                ctx.count("state_boundary_%s_%s_w%d" % (prof, "accept" if accept else "refuse", w))
+            ctx.case("state-boundary %s %d w%d" % (name, n, w), abs(n + 2 - (1 << w)) <= 2,
+                     {"shape": name, "states": n, "width": w, "expected": "accepted" if accept else "refused: " + DOC_STATE_MSG,
+                      "impl": out_r[3 * k + j][:300]})
+        if diffs or corr:
+            nbad += 1
+            fn = "long_prod_src" if name == "long-production" else "rule_chain_src"
+            data = {"grammar": src if len(src) < 6000 else src[:3000] + "…(%d bytes; checks.C20.%s(%d))" % (len(src), fn, n),
+                    "shape": name, "states": n, "inputs": [x[:200] for x in inputs], "differences": (diffs + corr)[:12],
+                    "builds": {"release u%d" % w: out_r[3 * k + j][:500] for j, w in enumerate(WIDTHS)},
+                    "size_assert_fixed": SIZE_ASSERT_FIXED,
+                    "replay_cmd": "cd /verif && for w in 8 16 32; do python3 -c 'from checks.C20 import *; print(\"N '$w' \" + hx(%s(%d)))' "
+                                  "| .work/target/release/c20; done" % (fn, n)}
+            if diffs:
+                ctx.violation(dict(data, why="a grammar whose state graph has MAX-1 or more states (MAX = StorageT::max_value()) must be refused "
+                                             "with the documented 'StorageT is not big enough to store this stategraph.' panic, one with fewer "
+                                             "must be built exactly as with u32 (authority: the u32 build; C20_state_count_refused_iff for the bound)"))
+            else:
+                ctx.violation(dict(data, broken="correspondence C20 state-count guards (C20_state_guards_exact / C20_state_count_refused_iff: "
+                                                "refused iff states >= MAX-1) vs implementation"), no_input=True)
+    ctx.oblige(nbad == 0, "state-count-boundary-documented-refusal")
+    return len(items)
+
+
 def gen_cases(ctx, w, full):
     """boundary configurations for width w (B = 2^w)"""
     B = 1 << w
@@ -693,7 +851,9 @@ def run(ctx):
         replay = ("cd /verif && python3 -c 'from checks.C20 import Case; print(Case(\"%s\", %d, %d, %d, chain=%d, pool=%d, long=%r, long2=%r, implicit=%d)"
                   ".harness_line(%d))' | .work/target/release/c20" % (c.kind, c.rules, c.tokens, c.prods, c.chain, c.pool, c.long, c.long2, c.implicit, w))
         base = {"case": c.desc(), "width": w, "impl": line_r[:600], "impl_u32": impl_r[i * 3 + 2][:600], "model": model[k],
-                "replay_cmd": replay, "guards_fixed": GUARDS_FIXED}
+                "replay_cmd": replay, "guards_fixed": GUARDS_FIXED, "size_assert_fixed": SIZE_ASSERT_FIXED}
+        if c.rules + c.tokens + c.prods + c.chain + (sum(c.long) if c.long else 0) + (sum(c.long2) if c.long2 else 0) < 1500:
+            base["grammar"] = c.src()
         if "true" not in m:
             ndiff += 1
             ctx.violation(dict(base, broken="model driver gave no result"), no_input=True)
@@ -722,7 +882,10 @@ def run(ctx):
             elif r["T"] in ("OTHERPANIC", "ERR"):
                 if cls != "Wrapped":
                     cls = "OtherPanic"
-                why += "; table construction: %s %s" % (r["T"], r["tmsg"][:200])
+                why = (why + "; " if why else "") + "table construction: %s %s" % (r["T"], r["tmsg"][:200])
+                if size_assert_class(r["tmsg"]):
+                    why += (" — a width that cannot hold the state graph must be refused with the documented '%s', not by a bare "
+                            "assertion of a constructor" % DOC_STATE_MSG)
             elif cls == "Same" and comparable(r) != comparable(ref):
                 cls, why = "Wrapped", "accepted but table / parse transcript differs from the u32 build"
             elif cls == "Same" and any("panic" in p for p in r["P"]):
@@ -764,7 +927,7 @@ def run(ctx):
         elif ref["G"] == "OK" and [int(ref["g"][x]) for x in ("rl", "tl", "pl", "eof", "sp", "mpl")] != tv[:6]:
             bad = "true sizes of the mirror differ from the u32 build"
         elif m["g"] != "PASS":
-            if not (r["G"] == "REFUSED" and refusal_class(r["gmsg"]) == m["g"]):
+            if not (r["G"] == "REFUSED" and refusal_class(r["gmsg"]) == guard_message(m["g"])):
                 bad = "mirror: grammar refused by %s; impl: %s %s" % (m["g"], r["G"], r["gmsg"][:80])
         else:
             if r["G"] != "OK":
@@ -777,12 +940,15 @@ def run(ctx):
                     bad = "reported sizes %s differ from the mirror's %s" % (got, ov[:6])
                 elif nowrap[0] == "1":
                     if m["s"] != "PASS":
-                        if not (r["T"] == "REFUSED" and refusal_class(r["tmsg"]) == m["s"]):
-                            bad = "mirror: table refused by %s; impl: %s %s" % (m["s"], r["T"], r["tmsg"][:80])
+                        if not (r["T"] == "REFUSED" and refusal_class(r["tmsg"]) == guard_message(m["s"])):
+                            bad = "mirror: table refused by guard %s (message class %s); impl: %s %s" % (
+                                m["s"], guard_message(m["s"]), r["T"], r["tmsg"][:80])
                     else:
-                        if r["T"] == "REFUSED" and refusal_class(r["tmsg"]) == "PAGER":
-                            ctx.count("pre_gc_refusal")     # more states before gc than after: allowed, not predicted
-                        elif r["T"] != "OK" or int(r["t"]["ns"]) != tv[6]:
+                        # (Case grammars are one chain production + unreachable rules: the Pager merges nothing and gc
+                        #  removes nothing, so pre-gc = post-gc = the u32 build's count and a refusal the mirror does not
+                        #  predict is a guard that fires too early — all guards print the same text now, so the message
+                        #  cannot tell them apart)
+                        if r["T"] != "OK" or int(r["t"]["ns"]) != tv[6]:
                             bad = "mirror: table accepted with %d states; impl: %s %s" % (tv[6], r["T"], r.get("t", {}).get("ns"))
         if bad:
             ndiff += 1
@@ -833,6 +999,7 @@ def run(ctx):
                 ctx.violation(dict(base, broken="correspondence C20 lexer mirror vs implementation"), no_input=True)
     ctx.oblige(nl == 0, "correspondence-lexer")
 
+    n_sb = state_boundary_family(ctx, exe_r, exe_d, mexe)
     n_merge = merge_family(ctx, exe_r, exe_d)
     ded = dedicated_grammars(ctx)
     n_ded = recovery_family(ctx, exe_r, exe_d, [(n, src, ins, True) for n, src, ins in ded], "dedicated_rec")
@@ -859,13 +1026,22 @@ def run(ctx):
         "debug; compared with the u32 release build: error positions, the sorted SET of repair sequences of each error up to the first "
         "error where a different member of the set was applied (counters rec_compare_same / _choice / _timeout), the value when all applied "
         "sequences agree; on non-isomorphic tables (merge family) only error positions." % n_ded)
+    ctx.coverage["rule"] += (
+        " State-count boundary: %d grammars (shapes `S: 't0' … 't{k-1}';` = k+2 states and the rule chain `R0: 'a' R1 | ; … R{m-1}: 'b';` "
+        "= 2m+1 / 2m+2 states; 16-bit sizes: 63 tokens per link, about 1000 rules) with exactly 253, 254, 255, 256 (thorough also 65533 … 65536) states x 3 widths x 2 profiles: a width accepts "
+        "iff states <= MAX-2 and then equals the u32 build; otherwise the panic text must be exactly '%s' (SIZE_ASSERT_FIXED=%s: a bare "
+        "assertion failure is a violation)." % (n_sb, DOC_STATE_MSG, SIZE_ASSERT_FIXED))
+    ctx.coverage["size_assert_variant_expected"] = "documented panic" if SIZE_ASSERT_FIXED else "bare asserts (before 394c6e3)"
     ctx.coverage["exhaustive"] = False
     ctx.coverage["guards_variant_expected"] = "fixed" if GUARDS_FIXED else "original"
     ctx.coverage["property_level_witnesses"] = nprop
     ctx.assumptions += [
         "state numbers are compared up to the canonical BFS renumbering (raw numbering follows FNV hash order of (PIdx<T>,SIdx<T>) keys and so legitimately depends on T)",
-        "number of states before gc is not observable through the public API: the mirror is fed pre_gc = post_gc = states of the u32 build; an unpredicted 'stategraph' refusal is accepted (counted as pre_gc_refusal)",
-        "refusal = panic message containing 'not big enough', or the size assertions of StateGraph::new / StateTable::new, or the lexer's try_from message",
+        "number of states before gc is not observable through the public API: the mirror is fed pre_gc = post_gc = states of the u32 build "
+        "(exact for the boundary configurations: one chain production / a rule chain, nothing is merged or collected)",
+        "refusal = panic message containing 'not big enough' (for a state-count guard exactly '%s'), or the lexer's try_from message; "
+        "SIZE_ASSERT_FIXED=%s: a bare `assertion failed` of StateGraph::new / StateTable::new is %s" % (
+            DOC_STATE_MSG, SIZE_ASSERT_FIXED, "a crash (OTHERPANIC -> VIOLATION)" if SIZE_ASSERT_FIXED else "counted as a refusal (tree before 394c6e3)"),
         "the SET of minimum-cost repair sequences CPCT+ offers for an error is a function of the table, the stack and the remaining input; "
         "the ORDER (hence repairs()[0], the applied one) is arbitrary (HashSet drain): errors after a differently chosen repair are not compared; "
         "a search that ends without repairs after >= 70%% of the %d ms budget counts as a timeout, not as a difference" % REC_BUDGET_MS,
